@@ -7,7 +7,7 @@
 From Coq Require Import List ZArith Bool Arith.
 From Krrood Require Import Base.Sx Eql.Syntax Eql.Sat Eql.Eval Eql.EvalProofs Eql.RunProofs Eql.ShowSpec.
 From Krrood Require Import Eql.EvalDepSpec Eql.EvalDep Eql.EvalDepGeneric Eql.EvalDepProofs Eql.EvalDepRun Eql.EvalDepExec
-  Eql.ShowDep Eql.ShowDepFrag.
+  Eql.EvalDepExists Eql.ShowDep Eql.ShowDepFrag.
 Import ListNotations.
 Open Scope nat_scope.
 
@@ -58,6 +58,18 @@ Theorem C01b_cover_complete : forall W D DS c,
   GoodD W D DS rho -> (forall x, In x (cond_vars c) -> InD D DS rho x) -> extends rho b ->
   exists b', In (b', negb (sat W D rho c)) (evalD W D DS c b) /\ extends rho b'.
 Proof. exact evalD_cover_complete. Qed.
+
+(* ---- exists over a plain or a flattened variable (exists(y, ...) with y = flatten(z.items), z = flatten(x.kids)) ----
+   one positive existential conjunct: exists(y, body) or and_(c0, exists(y, body)) with c0, body quantifier-free.
+   [ex_side]: y occurs in body and nowhere else (not in c0, the selection or a declaration), is not a sub-query, and every
+   variable the body may bind other than y is part of Exists' de-duplication key (its Variable instances and the Flatten
+   nodes below y); the query with the quantifier stripped is in the quantifier-free fragment [in_FD] *)
+Theorem C01b_exists_sound_complete : forall W D DS q c0 y body,
+  q_cond q = Some (match c0 with Some c0 => CAnd c0 (CExists (OVar y) body) | None => CExists (OVar y) body end) ->
+  ex_side DS (q_sels q) c0 y body = true ->
+  in_FD W D DS (strip_query q c0 body) = true ->
+  forall row, In row (runD W D DS q) <-> answerD W D DS q row.
+Proof. exact runD_ex_exact. Qed.
 
 (* the decidable flag the correspondence check computes for every generated flatten / sub-query case is covered by the
    theorems: inside it the model's rows are the answers, and the rows of the executable Spec *)
@@ -127,6 +139,21 @@ Example C01b_nonvacuous :
   dcase_in_FD w_sub_ok = true /\ dmodel_differs_as_set w_sub_ok = false /\ dspec_rows w_sub_ok <> SL [].
 Proof. repeat split; try (vm_compute; reflexivity); vm_compute; discriminate. Qed.
 
+(* exists over a flatten of a flatten: an(set_of([x, z], and_(z.a >= x.a, exists(y, y > x.a)))), z = flatten(x.kids), y = flatten(z.items) *)
+Definition w_exists_ok : dcase :=
+  let dsv : decls := [(11, FlatOf (OAttr (OVar 10) 2)); (10, FlatOf (OAttr (OVar 0) 3))] in
+  {| dc_case := {| e_world := [(1, 1, [(0%nat, VI 0); (2%nat, VLI [0; 1]); (3%nat, VLO [2; 1]); (4%nat, VO 2)]);
+                               (2, 2, [(0%nat, VI 1); (2%nat, VLI [2; 2]); (3%nat, VLO [1; 2]); (4%nat, VO 2)])]%Z;
+                   e_doms := [(0%nat, [VO 1; VO 2])]%Z;
+                   e_query := {| q_sels := [OVar 0; OVar 10];
+                                 q_cond := Some (mk_and (CCmp OpGe (OAttr (OVar 10) 0) (OAttr (OVar 0) 0))
+                                                        (CExists (OVar 11) (CCmp OpGt (OVar 11) (OAttr (OVar 0) 0)))) |} |};
+     dc_decls := dsv |}.
+Example C01b_exists_nonvacuous :
+  in_FDx (mk_world (e_world (dc_case w_exists_ok))) (mk_domains (e_doms (dc_case w_exists_ok))) (dc_decls w_exists_ok) (e_query (dc_case w_exists_ok)) = true /\
+  dcase_in_FD w_exists_ok = true /\ dmodel_differs_as_set w_exists_ok = false /\ dspec_rows w_exists_ok <> SL [].
+Proof. repeat split; try (vm_compute; reflexivity); vm_compute; discriminate. Qed.
+
 Print Assumptions C01b_spec_exec.
 Print Assumptions C01b_conservative_eval.
 Print Assumptions C01b_conservative_run.
@@ -135,6 +162,7 @@ Print Assumptions C01b_sound.
 Print Assumptions C01b_sound_complete.
 Print Assumptions C01b_cover_sound.
 Print Assumptions C01b_cover_complete.
+Print Assumptions C01b_exists_sound_complete.
 Print Assumptions C01b_fragment_flag.
 Print Assumptions C01b_fragment_flag_exec.
 Print Assumptions C01b_refuted_emptyflat.
